@@ -8,3 +8,4 @@ import RagcModel.Model.Varint
 import RagcModel.Model.Container
 import RagcModel.Model.Range
 import RagcModel.Model.LzDiff
+import RagcModel.Model.Pipeline
